@@ -756,7 +756,7 @@ def r6(R):
 @rule('C04.R7', 'every record a file storage stages links back to the '
       'object\'s current record (prev pointer from the index) and to the '
       'transaction being written (position from the committed end)',
-      props=['C06', 'C17'], min_instances=4)
+      props=['C06', 'C17', 'C07'], min_instances=4)
 def r7(R):
     cls = R.prog.cls(FS)
     dh = R.prog.cls('ZODB.FileStorage.format.DataHeader')
@@ -766,17 +766,32 @@ def r7(R):
               'DataHeader.__init__ parameters changed: %s' % params)
     iprev, itloc = params.index('prev'), params.index('tloc')
     n = 0
-    for meth in ('store', 'deleteObject', 'restore', '_txn_undo_write'):
-        f = R.method(cls, meth)
-        g, b, F = R.cfg(f, cls, max_depth=0)
+    copier = R.prog.cls('ZODB.FileStorage.fspack.PackCopier')
+    for kls, meth in ((cls, 'store'), (cls, 'deleteObject'), (cls, 'restore'),
+                      (cls, '_txn_undo_write'), (copier, 'copy')):
+        f = R.method(kls, meth)
+        g, b, F = R.cfg(f, kls, max_depth=0)
         for op in F.all_ops():
             if op.kind == 'call' and op.path and op.path[-1].endswith(
                     'DataHeader') and len(op.ast.args) > max(iprev, itloc):
                 n += 1
                 prev, tloc = op.ast.args[iprev], op.ast.args[itloc]
-                R.instance('FileStorage.%s: %s' % (
-                    meth, ast.unparse(op.ast)[:70]))
+                R.instance('%s.%s: %s' % (
+                    kls.name, meth, ast.unparse(op.ast)[:70]))
                 pv = provenance(prev, op.node.frame, F)
+                if prov_has(pv, 'path', lambda p: p[-1] == '_tindex' or (
+                        kls is copier and p[-1] == 'tindex')) or prov_has(
+                        pv, 'call', lambda p: '_tindex' in p):
+                    R.violation(op.node, 'the previous-revision pointer of '
+                                'the record written by %s.%s can come from '
+                                'the index of the transaction being written '
+                                '(`%s`): when a transaction holds two records '
+                                'of one object (multi-undo) the second points '
+                                'at the first instead of the committed '
+                                'revision, and history/undo of that '
+                                'transaction go wrong' % (
+                                    kls.name, meth, ast.unparse(prev)))
+                    continue
                 from_index = prov_has(pv, 'call', lambda p: p[-1] in (
                     '_index_get',) or p[-2:] == ('_index', 'get')) or \
                     prov_has(pv, 'path', lambda p: p == ('self', '_index'))
@@ -788,6 +803,8 @@ def r7(R):
                                 'between (loadSerial / loadBefore / history '
                                 'lose them)' % (meth, ast.unparse(prev)))
                 pt = provenance(tloc, op.node.frame, F)
+                if kls is copier:
+                    continue        # position handed in by the packer
                 if ('path', ('self', '_pos')) not in pt:
                     R.violation(op.node, 'the transaction pointer of the '
                                 'record staged by FileStorage.%s is `%s`, not '
